@@ -95,7 +95,8 @@ TASKS += [FunctionTask(MCBA, registry=_REG, clauses=["per-azimuth mean curves in
 
 META = dict(
     level="other",
-    explanation="proved: _compute_statistical_weights returns, azimuth-major, 1/(A n_a) for each of the n_a accepted windows of azimuth a (loop invariant over "
+    explanation="proved also: mean_curve_by_azimuth / mean_curve_peak_by_azimuth route azimuth a to row / entry a; "
+                "proved: _compute_statistical_weights returns, azimuth-major, 1/(A n_a) for each of the n_a accepted windows of azimuth a (loop invariant over "
                 "ghost prefix sums, symbolic number of azimuths and windows); algebraic steps of the sum-to-one and single-azimuth lemmas; "
                 "cross-check (bounded, labelled): every azimuthal statistic against the Cheng et al. weighted estimators over mask histories, "
                 "azimuth-order independence, single-azimuth and equal-count reductions",
